@@ -69,7 +69,8 @@ func (g *gen) Add(name string, typs []types.Type) (string, error) {
 	if len(typs) != 1 {
 		return "", fmt.Errorf("%s does not have one argument", name)
 	}
-	return g.SetFuncName(name, typs[0])
+	// an untyped constant is cloned as a value of its default type, which is also the type of the parameter.
+	return g.SetFuncName(name, types.Default(typs[0]))
 }
 
 func (g *gen) Generate(typs []types.Type) error {
